@@ -286,6 +286,102 @@ fn check_event(dm: &str, seed: u64, index: u64, rep: &mut Report) {
     rep.nontrivial.insert(format!("{}|{}|{:?}", dm, body, m1));
 }
 
+
+// ------------------------------------------------------------------------------------- _event of unmatched events
+
+/// `_event` is bound for EVERY dequeued event, also one no transition matches: an eventless guard
+/// evaluated right after such an event (internal, external or platform error) sees that event.
+fn check_event_unmatched(dm: &str, kind: &str, rep: &mut Report) {
+    let origin = format!("c09-event-unmatched dm={} kind={}", dm, kind);
+    // "go" is handled (binds _event = go) and makes the unmatched event happen; then only the guard can move on
+    let (body, unmatched, batches): (&str, &str, Vec<Vec<Event>>) = match kind {
+        "internal" => ("<raise event=\"u.int\"/>", "u.int", vec![vec![ev("go")], cancel()]),
+        "error" => ("<send event=\"x\" type=\"nosuchprocessor\"/>", "error.execution", vec![vec![ev("go")], cancel()]),
+        _ => ("", "u.ext", vec![vec![ev("go")], vec![ev("u.ext")], cancel()]),
+    };
+    let xml = format!(
+        "<scxml xmlns=\"http://www.w3.org/2005/07/scxml\" version=\"1.0\" datamodel=\"{dm}\" name=\"m\" initial=\"s0\">\
+         <state id=\"s0\"><transition event=\"go\" target=\"s1\">{body}</transition></state>\
+         <state id=\"s1\"><transition cond=\"_event.name == '{unmatched}'\" target=\"s2\"><script>mark(1, _event.name, _event.type)</script></transition></state>\
+         <state id=\"s2\"/></scxml>",
+        dm = dm,
+        body = body,
+        unmatched = unmatched
+    );
+    rep.evaluations += 1;
+    rep.count("event_unmatched_cases");
+    let (out, _) = match run(&xml, batches, &[]) {
+        Ok(x) => x,
+        Err(err) => {
+            rep.disagree(json!({"origin": origin, "xml": xml, "error": err}));
+            return;
+        }
+    };
+    let ms = marks(&out);
+    let m1 = ms.iter().find(|(a, _, _)| a[0] == "1").map(|(a, _, _)| a[1..].to_vec());
+    let want_type = match kind {
+        "internal" => "internal",
+        "error" => "platform",
+        _ => "external",
+    };
+    match m1 {
+        None => rep.oracle_fail(&format!("C09:{}:event-unmatched:{}:not-bound", dm, kind), json!({"origin": origin, "xml": xml, "what": "the eventless guard never saw the unmatched event in _event.name"})),
+        Some(v) => {
+            if v.first().map(|x| x.as_str()) != Some(unmatched) || v.get(1).map(|x| x.as_str()) != Some(want_type) {
+                rep.oracle_fail(&format!("C09:{}:event-unmatched:{}:wrong-fields", dm, kind), json!({"origin": origin, "xml": xml, "seen": v, "expected": [unmatched, want_type]}));
+            }
+            rep.nontrivial.insert(format!("unmatched|{}|{}", dm, kind));
+        }
+    }
+}
+
+// ------------------------------------------------------------------------------------- late binding: declared from load time
+
+/// with late binding the data of a state that was never entered exist (declared, without value)
+/// from load time: content may assign to them without error; the value of the <data> element is
+/// bound when the state is first entered
+fn check_late_declared(dm: &str, nested: bool, rep: &mut Report) {
+    let origin = format!("c09-late-declared dm={} nested={}", dm, nested);
+    let inner = if nested {
+        "<parallel id=\"p\"><state id=\"s1\"><datamodel><data id=\"w\" expr=\"5\"/></datamodel></state><state id=\"s1b\"/></parallel>"
+    } else {
+        "<state id=\"s1\"><datamodel><data id=\"w\" expr=\"5\"/></datamodel></state>"
+    };
+    let tgt = if nested { "p" } else { "s1" };
+    let xml = format!(
+        "<scxml xmlns=\"http://www.w3.org/2005/07/scxml\" version=\"1.0\" datamodel=\"{dm}\" name=\"m\" binding=\"late\" initial=\"s0\">\
+         <state id=\"top\"><transition event=\"error.execution\"><script>mark(990)</script></transition>\
+           <state id=\"s0\"><onentry><assign location=\"w\" expr=\"1\"/><script>mark(1, w)</script></onentry>\
+             <transition event=\"go\" target=\"{tgt}\"/></state>\
+           {inner}\
+           <transition event=\"after\"><script>mark(2, w)</script></transition>\
+         </state></scxml>",
+        dm = dm,
+        tgt = tgt,
+        inner = inner
+    );
+    rep.evaluations += 1;
+    rep.count("late_declared_cases");
+    let (out, _) = match run(&xml, vec![vec![ev("go")], vec![ev("after")], cancel()], &[]) {
+        Ok(x) => x,
+        Err(err) => {
+            rep.disagree(json!({"origin": origin, "xml": xml, "error": err}));
+            return;
+        }
+    };
+    let ms = marks(&out);
+    let get = |k: &str| ms.iter().find(|(a, _, _)| a[0] == k).map(|(a, _, _)| a[1..].to_vec());
+    let errors = ms.iter().filter(|(a, _, _)| a[0] == "990").count();
+    let info = |w: &str| json!({"origin": origin, "xml": xml, "what": w, "marks": ms.iter().map(|(a, _, _)| a.clone()).collect::<Vec<_>>()});
+    if errors != 0 || get("1").map(|v| v.first().map(|x| x == "1").unwrap_or(false)) != Some(true) {
+        rep.oracle_fail(&format!("C09:{}:late:not-declared-at-load", dm), info("assigning to the <data> of a not yet entered state failed: the element does not exist before the state is entered"));
+    } else if get("2").map(|v| v.first().map(|x| x == "5").unwrap_or(false)) != Some(true) {
+        rep.oracle_fail(&format!("C09:{}:late:value-not-bound-at-first-entry", dm), info("the <data> value was not bound when the state was first entered"));
+    } else {
+        rep.nontrivial.insert(format!("late-declared|{}|{}", dm, nested));
+    }
+}
+
 // ------------------------------------------------------------------------------------- system variables
 
 fn check_sysvar(dm: &str, seed: u64, index: u64, rep: &mut Report) {
@@ -443,6 +539,14 @@ pub fn run_real(args: &Args, rep: &mut Report) {
             check_sysvar(dm, args.seed, i, rep);
             check_sysvar(dm, args.seed, i + 100_000, rep);
             check_binding(dm, args.seed, i, rep);
+        }
+    }
+    for dm in ["rfsm-expression", "ecmascript"] {
+        for kind in ["internal", "external", "error"] {
+            check_event_unmatched(dm, kind, rep);
+        }
+        for nested in [false, true] {
+            check_late_declared(dm, nested, rep);
         }
     }
 }
